@@ -689,6 +689,9 @@ mod pc_stream {
     /// 0 = no `a=ssrc` line, 1 = `SSRC`, 2 = `SSRC2`, 9 = as the case's `ssrc` flag says (SSRC or none)
     pub enum Step { Pkt(usize, Vec<u8>), Answer(usize, u8), Reinvite(usize, u8), Stun(usize) }
     pub const SSRC2: u32 = 0x5566_7788;
+    /// what the PC feeds `set_remote_rtcp_addr` for an endpoint: nothing with rtcp-mux, else RTP port + 1 (symbolic R / U)
+    fn ra_op(i: usize, mux: bool) -> String { if mux { "ra,-".into() } else { format!("ra,{},{}", SYM[i].0, SYM[i].1 + 1) } }
+    fn rtcp_text(net: &Net, conn: &IceConn) -> String { match *conn.remote_rtcp_addr.read() { None => "-".into(), Some(a) => { let r = net.sym(a); format!("{}:{}", r.0, r.1) } } }
     fn ssrc_of(c: &PcCase, sid: u8) -> Option<u32> { match sid { 0 => None, 1 => Some(SSRC), 2 => Some(SSRC2), _ => if c.ssrc { Some(SSRC) } else { None } } }
     #[derive(Clone, Debug)]
     pub struct PcCase { pub maxp: u8, pub ssrc: bool, pub mux: bool, pub steps: Vec<Step> }
@@ -775,8 +778,8 @@ mod pc_stream {
         for _ in 0..500 { if let Some(t) = pc.verif_lc_rtp_transport() { transport = Some(t); break; } tokio::time::sleep(Duration::from_millis(2)).await; }
         let conn = transport.ok_or("no rtp transport after pranswer")?.ice_conn();
         tokio::time::sleep(Duration::from_millis(20)).await;
-        let observe = |net: &Net| { let r = net.sym(*conn.remote_addr.read()); format!("{}:{}/{}/{}", r.0, r.1, conn.rtp_latched.load(Ordering::Relaxed) as u8, conn.expected_ssrc.load(Ordering::Relaxed)) };
-        let mut out = PcOut { model_ops: vec![format!("init,{},{},{},0", SYM[0].0, SYM[0].1, c.maxp), "en".into(), format!("sg,{},{}", SYM[0].0, SYM[0].1)], obs: vec![], fails: vec![], stun_rewrites: 0, stun_moved_open: 0, split_rtcp: 0, ssrc_handoffs: 0, hidden: vec![] };
+        let observe = |net: &Net| { let r = net.sym(*conn.remote_addr.read()); format!("{}:{}/{}/{}/{}", r.0, r.1, conn.rtp_latched.load(Ordering::Relaxed) as u8, conn.expected_ssrc.load(Ordering::Relaxed), rtcp_text(net, &conn)) };
+        let mut out = PcOut { model_ops: vec![format!("init,{},{},{},0", SYM[0].0, SYM[0].1, c.maxp), "en".into(), format!("sg,{},{}", SYM[0].0, SYM[0].1), ra_op(0, c.mux)], obs: vec![], fails: vec![], stun_rewrites: 0, stun_moved_open: 0, split_rtcp: 0, ssrc_handoffs: 0, hidden: vec![] };
         { let (on, exp, mx, pr) = conn.verif_latch_state(); out.hidden.push(format!("on={on} expected={exp} maxp={mx} prob={:?}", pr.map(|p| (p.0, p.1, p.2.len())))); }
         if c.ssrc { out.model_ops.push(format!("ss,{SSRC}")); out.ssrc_handoffs += 1;
             if conn.expected_ssrc.load(Ordering::Relaxed) != SSRC { out.fails.push(("pc:ssrc:announced-ssrc-not-handed-to-the-latch:primary-creation".into(), format!("pranswer announces {SSRC}, latch expects {}", conn.expected_ssrc.load(Ordering::Relaxed)))); } }
@@ -811,9 +814,9 @@ mod pc_stream {
                     // an SDP without `a=ssrc` leaves the previous expectation in place.
                     if (*i, ss) != signaled {
                         match ss {
-                            Some(v) => { out.model_ops.push(format!("~sg,{},{}", SYM[*i].0, SYM[*i].1)); out.model_ops.push(format!("ss,{v}")); out.ssrc_handoffs += 1;
+                            Some(v) => { out.model_ops.push(format!("~sg,{},{}", SYM[*i].0, SYM[*i].1)); out.model_ops.push(format!("~{}", ra_op(*i, c.mux))); out.model_ops.push(format!("ss,{v}")); out.ssrc_handoffs += 1;
                                 if conn.expected_ssrc.load(Ordering::Relaxed) != v { out.fails.push(("pc:ssrc:announced-ssrc-not-handed-to-the-latch:primary-retarget".into(), format!("step {k}: SDP announces {v}, latch expects {}", conn.expected_ssrc.load(Ordering::Relaxed)))); } }
-                            None => out.model_ops.push(format!("sg,{},{}", SYM[*i].0, SYM[*i].1)),
+                            None => { out.model_ops.push(format!("~sg,{},{}", SYM[*i].0, SYM[*i].1)); out.model_ops.push(ra_op(*i, c.mux)); }
                         }
                         pair_remote = *i; signaled = (*i, ss);
                     } else { out.model_ops.push(format!("mp,{}", c.maxp)); }
@@ -893,7 +896,7 @@ mod pc_stream {
                 let case = parse_case(&ops.join(" "));
                 let npre = o.model_ops.iter().position(|t| t == "|").unwrap() - 1;
                 let parse_obs = |t: &str| { let f: Vec<&str> = t.split('/').collect(); let (r, l) = (f[0], f[1]); let (i, p) = r.split_once(':').unwrap();
-                    Obs { remote: (i.parse().unwrap(), p.parse().unwrap()), rtcp: None, latched: l == "1", rtcpl: false, fwd: "-", on: false /* hidden part not observed here: skips the table oracles */, exp: 0, maxp: 0, prob: None } };
+                    Obs { remote: (i.parse().unwrap(), p.parse().unwrap()), rtcp: f.get(3).and_then(|x| x.split_once(':')).map(|(a, b)| (a.parse().unwrap(), b.parse().unwrap())), latched: l == "1", rtcpl: false, fwd: "-", on: false /* hidden part not observed here: skips the table oracles */, exp: 0, maxp: 0, prob: None } };
                 // states during the prefix are not observable (inside set_remote_description): replay it on a bare IceConn
                 let pre = exec_prefix(rt, &case, npre);
                 let mut obs: Vec<Obs> = pre;
@@ -905,7 +908,7 @@ mod pc_stream {
                     obs.push(parse_obs(&o.obs[if t.starts_with('~') { j + 1 } else { j }]));
                 }
                 run.count_n("pc_ssrc_handoffs_from_sdp", o.ssrc_handoffs);
-                for (sig, d) in oracles(&case, &obs) { if !sig.starts_with("rtcp:set") { run.fail(&format!("pc:{sig}"), &text, &d); } }
+                for (sig, d) in oracles(&case, &obs) { run.fail(&format!("pc:{sig}"), &text, &d); }
                 for (sig, d) in o.fails { run.fail(&sig, &text, &d); }
                 Some(o.obs)
             }
@@ -943,6 +946,9 @@ mod pc_stream {
         v.push(PcCase { maxp: 0, ssrc: true, mux: true, steps: vec![Step::Answer(4, 2), p(1, false, 10), p2(2, false, 20), p(3, false, 30)] });
         v.push(PcCase { maxp: 6, ssrc: true, mux: false, steps: vec![p(1, true, 10), Step::Answer(0, 9), Step::Reinvite(0, 2), p(2, true, 11), p2(3, true, 50), Step::Reinvite(0, 0), p(1, true, 12), Step::Reinvite(4, 0), p(1, true, 13), p2(2, true, 60)] });
         v.push(PcCase { maxp: 2, ssrc: false, mux: true, steps: vec![p(1, false, 10), Step::Answer(0, 1), p2(2, false, 20), p2(2, false, 21), p(3, false, 30), p(3, false, 40)] });
+        // RTCP destination in a real connection (no rtcp-mux): learnt once from the first foreign RTCP sender, not again
+        // until a new description re-arms it
+        v.push(PcCase { maxp: 3, ssrc: true, mux: false, steps: vec![rtcp_(1), rtcp_(2), rtcp_(3), p(1, true, 10), rtcp_(3), Step::Answer(4, 9), rtcp_(2), rtcp_(3), rtcp_(1)] });
         let mut rng = Rng::new(args.seed ^ 0x18);
         let n = if args.tier_thorough { 120 } else { 14 };
         for _ in 0..n {
@@ -987,7 +993,8 @@ mod pc_stream {
         let vport: u16 = offer_text.lines().find_map(|l| l.strip_prefix("m=video ")).and_then(|r| r.split(' ').next()).and_then(|p| p.parse().ok()).ok_or("no m=video port")?;
         let local = SocketAddr::new(IpAddr::V4(Ipv4Addr::new(127, 0, 0, 1)), vport);
         let observe = |net: &Net| { let a = *conn.remote_addr.read(); let r = if a.port() == 0 && a.ip().is_unspecified() { (0, 0) } else { net.sym(a) };
-            format!("{}:{}/{}/{}", r.0, r.1, conn.rtp_latched.load(Ordering::Relaxed) as u8, conn.expected_ssrc.load(Ordering::Relaxed)) };
+            format!("{}:{}/{}/{}/{}", r.0, r.1, conn.rtp_latched.load(Ordering::Relaxed) as u8, conn.expected_ssrc.load(Ordering::Relaxed), rtcp_text(net, &conn)) };
+        let mut video_pair: Option<usize> = None; // remote of the extra transport's selected pair (none before the answer)
         let mut out = PcOut { model_ops: vec![format!("init,0,0,{},0", c.maxp), "en".into(), "|".into()], obs: vec![observe(&net)], fails: vec![], stun_rewrites: 0, stun_moved_open: 0, split_rtcp: 0, ssrc_handoffs: 0, hidden: vec![] };
         for (k, st) in c.steps.iter().enumerate() {
             match st {
@@ -1024,12 +1031,29 @@ mod pc_stream {
                         pc.set_local_description(a).map_err(|e| format!("set_local(answer): {e:?}"))?;
                     }
                     match ssrc_of(c, *sid) {
-                        Some(v) => { out.model_ops.push(format!("~sg,{},{}", SYM[*i].0, SYM[*i].1)); out.model_ops.push(format!("ss,{v}")); out.ssrc_handoffs += 1;
+                        Some(v) => { out.model_ops.push(format!("~sg,{},{}", SYM[*i].0, SYM[*i].1)); out.model_ops.push(format!("~{}", ra_op(*i, false))); out.model_ops.push(format!("ss,{v}")); out.ssrc_handoffs += 1;
                             if conn.expected_ssrc.load(Ordering::Relaxed) != v { out.fails.push(("pc:ssrc:announced-ssrc-not-handed-to-the-latch:existing-extra-transport".into(), format!("step {k}: SDP announces {v}, latch expects {}", conn.expected_ssrc.load(Ordering::Relaxed)))); } }
-                        None => out.model_ops.push(format!("sg,{},{}", SYM[*i].0, SYM[*i].1)),
+                        None => { out.model_ops.push(format!("~sg,{},{}", SYM[*i].0, SYM[*i].1)); out.model_ops.push(ra_op(*i, false)); }
+                    }
+                    video_pair = Some(*i);
+                }
+                Step::Stun(i) => {
+                    // the extra transport has its own IceTransport and pair monitor: same rewrite rule as on the primary
+                    let m = StunMessage { class: StunClass::Request, method: StunMethod::Binding, transaction_id: [k as u8; 12], attributes: vec![] };
+                    let bytes = m.encode(None, true).map_err(|e| format!("stun encode: {e:?}"))?;
+                    let before = *conn.remote_addr.read();
+                    net.socks[*i].send_to(&bytes, local).await.map_err(|e| format!("send: {e}"))?;
+                    let applies = match video_pair { Some(pr) => SYM[*i].1 == SYM[pr].1 && SYM[*i].0 != SYM[pr].0, None => false };
+                    if applies { out.model_ops.push(format!("pr,{},{}", SYM[*i].0, SYM[*i].1)); video_pair = Some(*i); out.stun_rewrites += 1; }
+                    else { out.model_ops.push(format!("mp,{}", c.maxp)); }
+                    tokio::time::sleep(Duration::from_millis(50)).await;
+                    if *conn.remote_addr.read() != before {
+                        out.stun_moved_open += 1;
+                        if applies { out.fails.push(("pc:move:stun-request-moved-open-destination".into(), format!("step {k} (extra transport): {:?} -> {:?} by a STUN binding request without credentials", net.sym(before), net.sym(*conn.remote_addr.read())))); }
+                        else { out.fails.push(("pc:move:stun-request-not-from-the-pair-port-moved-destination".into(), format!("step {k} (extra transport): {:?} -> {:?}", net.sym(before), net.sym(*conn.remote_addr.read())))); }
                     }
                 }
-                _ => return Err("only packets, one answer and re-INVITEs in an extra-transport scenario".into()),
+                _ => return Err("only packets, STUN, one answer and re-INVITEs in an extra-transport scenario".into()),
             }
             tokio::time::sleep(Duration::from_millis(10)).await;
             out.obs.push(observe(&net));
@@ -1067,8 +1091,8 @@ mod pc_stream {
         // the extra transport is the one whose destination is the video endpoint
         let conn = held.iter().map(|t| t.ice_conn()).find(|c| *c.remote_addr.read() == ta).ok_or_else(|| format!("no transport aimed at the video endpoint; answer:\n{ans_text}"))?;
         let observe = |net: &Net| { let r = net.sym(*conn.remote_addr.read());
-            format!("{}:{}/{}/{}", r.0, r.1, conn.rtp_latched.load(Ordering::Relaxed) as u8, conn.expected_ssrc.load(Ordering::Relaxed)) };
-        let mut out = PcOut { model_ops: vec![format!("init,{},{},{},0", SYM[4].0, SYM[4].1, c.maxp), "en".into()], obs: vec![], fails: vec![], stun_rewrites: 0, stun_moved_open: 0, split_rtcp: 0, ssrc_handoffs: 0, hidden: vec![] };
+            format!("{}:{}/{}/{}/{}", r.0, r.1, conn.rtp_latched.load(Ordering::Relaxed) as u8, conn.expected_ssrc.load(Ordering::Relaxed), rtcp_text(net, &conn)) };
+        let mut out = PcOut { model_ops: vec![format!("init,{},{},{},0", SYM[4].0, SYM[4].1, c.maxp), "en".into(), ra_op(4, false)], obs: vec![], fails: vec![], stun_rewrites: 0, stun_moved_open: 0, split_rtcp: 0, ssrc_handoffs: 0, hidden: vec![] };
         if let Some(v) = ssrc_of(c, sid) { out.model_ops.push(format!("ss,{v}")); out.ssrc_handoffs += 1;
             if conn.expected_ssrc.load(Ordering::Relaxed) != v { out.fails.push(("pc:ssrc:announced-ssrc-not-handed-to-the-latch:new-extra-transport".into(), format!("offer announces {v}, latch expects {}", conn.expected_ssrc.load(Ordering::Relaxed)))); } }
         out.model_ops.push("|".into());
@@ -1092,7 +1116,8 @@ mod pc_stream {
             // RTCP, DTLS-like and garbage before anything is known must not set the destination; RTP (no SSRC known) does
             PcCase { maxp: 6, ssrc: false, mux: true, steps: vec![Step::Pkt(1, rtcp()), Step::Pkt(2, vec![22, 254, 253, 0, 0, 0, 0, 0, 0, 0, 0, 0, 1, 0]), Step::Pkt(3, vec![200, 1, 2, 3]),
                 p(1, false, 10), p(2, false, 20), p(2, false, 21), p(2, false, 22), Step::Pkt(3, rtcp()), Step::Answer(4, 2), Step::Pkt(1, rtcp()), p(3, true, 5), Step::Pkt(3, rtp(true, 6, 6, SSRC2)), Step::Pkt(1, rtcp()),
-                Step::Reinvite(0, 1), Step::Pkt(2, rtp(true, 7, 7, SSRC2)), p(1, true, 8)] },
+                Step::Stun(6), Step::Stun(1),
+                Step::Reinvite(0, 1), Step::Stun(1), Step::Stun(5), Step::Pkt(2, rtp(true, 7, 7, SSRC2)), p(1, true, 8), Step::Stun(6)] },
             PcCase { maxp: 0, ssrc: false, mux: true, steps: vec![Step::Pkt(3, rtcp()), Step::Pkt(3, rtp(false, 1, 1, 5)[..8].to_vec()), p(3, false, 1), p(1, true, 2), Step::Answer(4, 1), Step::Pkt(2, rtcp()), Step::Pkt(2, rtp(false, 9, 9, SSRC2)), p(2, false, 9), Step::Reinvite(4, 2), p(1, false, 10), Step::Pkt(3, rtp(false, 11, 11, SSRC2))] },
         ]
     }
@@ -1112,11 +1137,12 @@ mod pc_stream {
             let r = rt.block_on(exec_extra(&c));
             if let Some(obs) = finish(run, rt, &text, r, "pc_extra_transport_scenarios") {
                 // clause 1 / 4 directly: before the answer only RTP may set the unset destination
-                let mut prev = obs[0].clone();
+                let dest = |t: &str| t.split('/').next().unwrap().to_string(); // destination field only
+                let mut prev = dest(&obs[0]);
                 for (k, st) in c.steps.iter().enumerate() {
-                    if let Step::Pkt(_, b) = st { if !(is_rtp(b) && b.len() >= 12) && obs[k + 1] != prev {
+                    if let Step::Pkt(_, b) = st { if !(is_rtp(b) && b.len() >= 12) && dest(&obs[k + 1]) != prev {
                         run.fail("pc:move:unset-destination-of-extra-transport-set-by-non-rtp", &text, &format!("step {k}: {} -> {}", prev, obs[k + 1])); } }
-                    prev = obs[k + 1].clone();
+                    prev = dest(&obs[k + 1]);
                 }
             }
         }
